@@ -153,6 +153,9 @@ def run(ctx):
                                "(replies / state / lock trace / schedule set) on a controlled schedule",
                                "first": corr[0][:3000], "count": len(corr)})
         seen = set()
+        # report the most telling violation first: what the property names, then serializability, then aborts
+        prio = {"unwatched": 0, "ledger": 1, "orphan": 2, "serial": 3, "panic": 4}
+        mon.sort(key=lambda f: (prio.get(MON_RE.match(f).group(1), 9) if MON_RE.match(f) else 9))
         for f in mon:
             m = MON_RE.match(f)
             if not m:
@@ -167,6 +170,8 @@ def run(ctx):
             ctx.add_violation(f"C10 monitor `{check}` false on the real tower ({cls}): case {case}, schedule {word.strip()}",
                               {"kind": "conc", "case": case, "word": [int(x) for x in word.split()], "check": check, "class": cls,
                                "detail": detail[:3000]}, key)
+    cov["violation_classes_seen"] = sorted({f"{v['key']['check']}:{v['key']['class']}" + ("" if vlib.match_known(ctx.known, v) is None else " (known)")
+                                             for v in ctx.violations})
     return ctx.finish("proof")
 
 
